@@ -201,10 +201,17 @@ def check_nonbyte(chk, s, seed):
     return v1
 
 
-def nonbyte_values(tier, chk=None):
+NB_PARTS = 16
+
+
+def nonbyte_part(tier, part):
+    return nonbyte_corpus(tier)[part::NB_PARTS]
+
+
+def nonbyte_values(tier, part, chk=None):
     vals = []
     fresh = chk if chk is not None else runner.Check(PROPERTY, LEVEL, tier, 0)
-    for s in nonbyte_corpus(tier):
+    for s in nonbyte_part(tier, part):
         for seed in SEEDS:
             v = check_nonbyte(fresh, s, seed)
             vals.append(v)
@@ -217,10 +224,11 @@ def nonbyte_values(tier, chk=None):
     return vals
 
 
-def child_values(tier, hashseed):
-    """The same corpus evaluated by a fresh interpreter with another PYTHONHASHSEED."""
+def child_values(tier, part, hashseed):
+    """The same part of the corpus evaluated by a fresh interpreter with another PYTHONHASHSEED."""
     env = dict(os.environ, PYTHONHASHSEED=hashseed, PYTHONDONTWRITEBYTECODE="1",
-               C14_CHILD_REPO=runner.repo_dir(), C14_CHILD_VERIF=runner.VERIF_DIR, C14_CHILD_TIER=tier)
+               C14_CHILD_REPO=runner.repo_dir(), C14_CHILD_VERIF=runner.VERIF_DIR, C14_CHILD_TIER=tier,
+               C14_CHILD_PART=str(part))
     code = ("import os,sys; sys.path[:0]=[os.environ['C14_CHILD_REPO'], os.environ['C14_CHILD_VERIF']]; "
             "from checks import c14; c14._child()")
     r = subprocess.run([sys.executable, "-c", code], env=env, capture_output=True, text=True)
@@ -235,7 +243,7 @@ def _child():
     f = os.path.realpath(pymemcache.__file__)
     if not f.startswith(os.path.realpath(os.environ["C14_CHILD_REPO"]) + os.sep):
         sys.exit(f"child imported pymemcache from {f}")
-    json.dump(nonbyte_values(os.environ["C14_CHILD_TIER"]), sys.stdout)
+    json.dump(nonbyte_values(os.environ["C14_CHILD_TIER"], int(os.environ["C14_CHILD_PART"])), sys.stdout)
 
 
 # ---------------------------------------------------------------------------
@@ -243,7 +251,7 @@ def _child():
 
 
 def _jobs(tier):
-    jobs = [("vectors",), ("nonbyte",)] + [("xproc", h) for h in XPROC_HASHSEEDS]
+    jobs = [("vectors",)] + [("nonbyte", i) for i in range(NB_PARTS)]
     jobs += [("full", 0, 0), ("full", 1, 0)] + [("full", 2, a) for a in range(0, 256, 16)]
     if tier != "quick":
         jobs += [("full3", a) for a in range(256)]
@@ -324,27 +332,28 @@ def _worker(job, chk):
                     "expected": 0x2FA826CD,
                     "murmur3_32": murmur3_32("The quick brown fox jumps over the lazy dog", 0x9747B28C)})
     elif kind == "nonbyte":
-        nonbyte_values(chk.tier, chk)
-        s = "aĀ\U0010ffff"
-        chk.sample({"non_byte_string_codepoints": [ord(c) for c in s], "seed": 0, "murmur3_32": murmur3_32(s, 0),
-                    "oracle": "equal across calls and across interpreter processes; int in 0..2^32-1"})
-    elif kind == "xproc":
-        mine = nonbyte_values(chk.tier)
-        theirs = child_values(chk.tier, job[1])
-        if len(mine) != len(theirs):
-            raise runner.HarnessError("child enumerated a different corpus")
-        corpus = nonbyte_corpus(chk.tier)
+        part = job[1]
+        mine = nonbyte_values(chk.tier, part, chk)
+        corpus = nonbyte_part(chk.tier, part)
         ns = len(SEEDS)
-        chk.add(len(theirs))
-        chk.count("cross_process_comparisons", len(theirs))
-        for i, (a, b) in enumerate(zip(mine, theirs)):
-            if a != b:
-                s, seed = corpus[i // ns], SEEDS[i % ns]
-                chk.violation("nonbyte-nondeterministic|across-processes",
-                              f"murmur3_32({s!r}, {seed:#x}) = {a!r} in this process, {b!r} in an interpreter "
-                              f"started with PYTHONHASHSEED={job[1]}",
-                              {"codepoints": [ord(c) for c in s], "seed": seed, "hashseed": job[1]})
-        chk.classes.add(("xproc", job[1], len(set(theirs)) > 1))
+        for hs in XPROC_HASHSEEDS:
+            theirs = child_values(chk.tier, part, hs)
+            if len(mine) != len(theirs):
+                raise runner.HarnessError("child enumerated a different corpus")
+            chk.add(len(theirs))
+            chk.count("cross_process_comparisons", len(theirs))
+            for i, (a, b) in enumerate(zip(mine, theirs)):
+                if a != b:
+                    s, seed = corpus[i // ns], SEEDS[i % ns]
+                    chk.violation("nonbyte-nondeterministic|across-processes",
+                                  f"murmur3_32({s!r}, {seed:#x}) = {a!r} in this process, {b!r} in an interpreter "
+                                  f"started with PYTHONHASHSEED={hs}",
+                                  {"codepoints": [ord(c) for c in s], "seed": seed, "hashseed": hs})
+        if part == 0:
+            s = "a\u0100\U0010ffff"
+            chk.sample({"non_byte_string_codepoints": [ord(c) for c in s], "seed": 0,
+                        "murmur3_32": murmur3_32(s, 0),
+                        "oracle": "equal across calls and across interpreter processes; int in 0..2^32-1"})
     else:
         raise runner.HarnessError(f"unknown job {job!r}")
 
